@@ -33,7 +33,7 @@ ASSUMPTIONS = [
 FORMATS = ['epytext', 'restructuredtext', 'google', 'numpy', 'plaintext']
 _TOK = re.compile(r'w\d+q')
 
-LABELS = {'param': 'Parameters', 'keyword': 'Parameters', 'return': 'Returns', 'raise': 'Raises', 'note': 'Note', 'see': 'See Also',
+LABELS = {'param': 'Parameters', 'keyword': 'Parameters', 'return': 'Returns', 'yield': 'Yields', 'raise': 'Raises', 'note': 'Note', 'see': 'See Also',
           'since': 'Present Since', 'author': 'Author'}
 
 
